@@ -946,6 +946,19 @@ class Models:
         raise CannotEncode(f'method {name} of {type(obj).__name__}')
 
     def seq_method(self, seq, name, args, kwargs):
+        if name in ('any', 'all') and seq.pytype == 'ndarray' and not args and not kwargs:
+            # truth of the elements inside the (possibly symbolic) extent
+            conds = []
+            ln = idx_term(seq.length) if not isinstance(seq.length, int) else seq.length
+            off = seq.off if isinstance(seq.off, int) else None
+            if off is None:
+                raise CannotEncode('any()/all() on a view with symbolic offset')
+            for k in range(len(seq.cells) - off):
+                c = seq.cells[off + k]
+                nz = (c != 0) if is_sym(c) else bool(c)
+                inside = (k < ln) if isinstance(ln, int) else ilt(k, ln)
+                conds.append(land(inside, nz) if name == 'any' else lor(lnot(inside), nz))
+            return simp_bool(lor(*conds) if name == 'any' else land(*conds))
         ip = self.ip
         if name in ('upper', 'lower'):
             pc = seq.plain_cells()
